@@ -34,6 +34,10 @@ from ..lab import BULK, BULK_MD5, BULK_N  # noqa: E402
 
 CONTENTS.update(BULK)
 MD5.update(BULK_MD5)
+for _c in ("x", "y", "z"):
+    # the same-size rewrite of a content (used by the restaging writers)
+    CONTENTS[_c + "~"] = bytes((b + 1) % 256 for b in CONTENTS[_c])
+    MD5[_c + "~"] = ref.md5(CONTENTS[_c + "~"])
 CONTENTS["brackets"] = b"[]"
 MD5["brackets"] = ref.md5(b"[]")
 # an empty directory (its directory object is the listing []) next to a writer staging a file whose content is "[]";
@@ -119,7 +123,7 @@ def install_data_read_seam():
     _READS["installed"] = True
 
 
-def writer_fn(root, wi, tree, shared_objs, first, upload=False, trail=False):
+def writer_fn(root, wi, tree, shared_objs, first, upload=False, trail=False, restage=False):
     """Returns a callable performing writer wi's stage + transfer."""
 
     def fn():
@@ -156,6 +160,15 @@ def writer_fn(root, wi, tree, shared_objs, first, upload=False, trail=False):
             wsp = os.path.join(root, f"ws{wi}") + (os.sep if trail else "")   # same directory, other spelling
             staging, _m, obj = build(odb, wsp, LFS, "md5", upload=upload)
             res = transfer(staging, odb, {obj.hash_info}, shallow=False, hardlink=False)
+            if restage and "a" in tree:
+                # the user rewrites file a in place (same size, same inode, half a microsecond later) and stages again
+                pa = os.path.join(root, f"ws{wi}", "a")
+                ns0 = os.stat(pa).st_mtime_ns
+                with open(pa, "r+b") as fh:
+                    fh.write(CONTENTS[tree["a"] + "~"])
+                os.utime(pa, ns=(ns0 + 500, ns0 + 500))
+                staging, _m, obj = build(odb, wsp, LFS, "md5", upload=upload)
+                res = transfer(staging, odb, {obj.hash_info}, shallow=False, hardlink=False)
         finally:
             if state is not None:
                 state.close()
@@ -199,7 +212,7 @@ def one_schedule(cfg, choices):
         if cfg["mode"] == "threads":
             state = State(root_dir=root, tmp_dir=w.p("tmp"))
             odb = make_odb("local", w.p("odb"), state=state)
-            fns = [writer_fn(root, i, t, {"odb": odb}, cfg.get("first"), cfg.get("upload", False), cfg.get("trail", False))
+            fns = [writer_fn(root, i, t, {"odb": odb}, cfg.get("first"), cfg.get("upload", False), cfg.get("trail", False), cfg.get("restage", False))
                    for i, t in enumerate(trees)]
             fine = [w.p(f"ws{i}") for i in range(len(trees))] if cfg.get("fine") or cfg.get("reads") else []
             # reads pass: only the workspaces' events and data reads are points (the phases that touch the
@@ -217,7 +230,8 @@ def one_schedule(cfg, choices):
                 state.close()
         else:
             os.makedirs(w.p("odb"), exist_ok=True)
-            fns = [writer_fn(root, i, t, None, cfg.get("first"), cfg.get("upload", False), cfg.get("trail", False))
+            fns = [writer_fn(root, i, t, None, cfg.get("first"), cfg.get("upload", False), cfg.get("trail", False),
+                             cfg.get("restage", False))
                    for i, t in enumerate(trees)]
             sched = ProcSched(fns, choices, shared)
             try:
@@ -227,6 +241,8 @@ def one_schedule(cfg, choices):
                 trace, results = sched.trace, [None] * len(trees)
         # ---- oracle
         snap = objects_only(store_snapshot(w.p("odb")))
+        if cfg.get("restage"):
+            trees = [dict(t, a=t["a"] + "~") if "a" in t else t for t in trees]
         for i, (t, r) in enumerate(zip(trees, results)):
             if r is None:
                 continue
@@ -458,6 +474,9 @@ def _extra_cfgs(tier):
     # crosses the state database's 999-parameter batches with a non-empty table
     for mode in ("threads", "procs"):
         yield {"workload": "bulk", "mode": mode, "first": None, "caps": False}, 0
+    # writers that rewrite a file in place right after staging it and stage again
+    for mode in ("threads", "procs"):
+        yield {"workload": "overlap", "mode": mode, "first": None, "caps": False, "restage": True}, 1
     # special values: an empty directory, a backslash in a directory name
     for name in ("emptydir", "backslash"):
         yield {"workload": name, "mode": "threads", "first": None, "caps": False}, 1
